@@ -26,11 +26,38 @@ const (
 	Str
 	Ints
 	Strs
+	// PtCol is a column of the pointer-free struct type Pt (gob encodes such a
+	// column field by field and omits zero fields). It can only be a value
+	// column. PtsCol is its grouped form.
+	PtCol
+	PtsCol
 )
 
+// Pt is a pointer-free struct column value.
+type Pt struct {
+	X, Y int32
+	Ok   bool
+}
+
+// scalar: usable as a key column. atom: not a grouped column.
 func (c Col) scalar() bool { return c == Int || c == Str }
+func (c Col) atom() bool   { return c == Int || c == Str || c == PtCol }
+
+// grouped is the column type Cogroup makes of a value column.
+func (c Col) grouped() Col {
+	switch c {
+	case Int:
+		return Ints
+	case Str:
+		return Strs
+	case PtCol:
+		return PtsCol
+	}
+	panic("refeval: grouped column of a grouped column")
+}
+
 func (c Col) String() string {
-	return [...]string{"int", "string", "[]int", "[]string"}[c]
+	return [...]string{"int", "string", "[]int", "[]string", "pt", "[]pt"}[c]
 }
 
 // Row is one row: values of type int, string, []int or []string.
@@ -57,7 +84,7 @@ const (
 // Source describes a source slice and its data.
 type Source struct {
 	Kind   SrcKind
-	Schema []Col // Const/ReaderFunc: (int,int), (string,int) or (int,int,int); ScanReader: (string)
+	Schema []Col // Const/ReaderFunc: (int,int), (string,int), (int,int,int) or (int,pt); ScanReader: (string)
 	Shards int
 	Rows   int
 	Keys   Keys
@@ -107,6 +134,7 @@ const (
 	FilterAll  = iota // keep everything
 	FilterNone        // keep nothing
 	FilterAlt         // keep rows of even weight
+	FilterMod3        // keep rows whose weight is not a multiple of 3 (rejects about a third)
 	numFilterVars
 )
 const (
@@ -130,7 +158,7 @@ const (
 )
 
 var mapVarNames = [...]string{"add1", "swap", "keymod3", "int2str", "to3", "parse", "groupsum"}
-var filterVarNames = [...]string{"all", "none", "alt"}
+var filterVarNames = [...]string{"all", "none", "alt", "mod3"}
 var flatVarNames = [...]string{"0", "1", "2", "5", "var"}
 var cgVarNames = [...]string{"single", "self", "second"}
 var rpVarNames = [...]string{"zero", "mod"}
@@ -203,10 +231,14 @@ const (
 	// x is materialized, i.e. compiled on its own as a non-shuffle dependency
 	// of Filter:all AND as a shuffle dependency with n partitions of Reshard.
 	ShapeFanout
+	// ShapeResult is the second invocation of a two-invocation program (see
+	// multi.go): Prev is run first; its *exec.Result, wrapped in
+	// bigslice.Prefixed(res, N1) if N1 > 0, is the slice Ops are applied to.
+	ShapeResult
 	numShapes
 )
 
-var shapeNames = [...]string{"chain", "shared", "nested", "cogroup3", "sharedwriter", "fanout"}
+var shapeNames = [...]string{"chain", "shared", "nested", "cogroup3", "sharedwriter", "fanout", "result"}
 
 // fanoutOp is the consumer of ShapeFanout selected by n.
 func fanoutOp(n int) Op {
@@ -226,6 +258,8 @@ type Program struct {
 	// Tag selects the side-effect recording table that Scan/WriterFunc
 	// callbacks write to (see NewRecording). 0 = callbacks do not record.
 	Tag uint64
+	// Prev is the first invocation of a ShapeResult program (nil otherwise).
+	Prev *Program
 	// Ext holds the optional extensions of ext.go (pragma placement, row
 	// counting, cache directory). The zero value changes nothing.
 	Ext
@@ -254,6 +288,9 @@ func (s Source) Class() string {
 // String is a canonical, complete description of the program (Tag excluded).
 func (p Program) String() string {
 	var b strings.Builder
+	if p.Shape == ShapeResult {
+		return p.resultString()
+	}
 	b.WriteString(shapeNames[p.Shape])
 	b.WriteString(" ")
 	b.WriteString(p.Src.String())
@@ -277,6 +314,9 @@ func (p Program) String() string {
 // operator classes. Violation signatures are built from it.
 func (p Program) Skeleton() string {
 	parts := []string{shapeNames[p.Shape], p.Src.Class()}
+	if p.Shape == ShapeResult && p.Prev != nil {
+		parts = []string{"result", "{" + p.Prev.Skeleton() + "}", fmt.Sprintf("Prefixed(%d)", p.N1)}
+	}
 	for _, o := range p.Ops {
 		parts = append(parts, o.Class())
 	}
@@ -299,6 +339,10 @@ func (p Program) usesSrc2() bool {
 func (p Program) NumShuffles() int {
 	n := 0
 	switch p.Shape {
+	case ShapeResult:
+		if p.Prev != nil {
+			n = p.Prev.NumShuffles()
+		}
 	case ShapeShared, ShapeSharedWriter:
 		n = 3
 	case ShapeNested:
@@ -345,6 +389,16 @@ func (t Type) keysScalar() bool {
 		}
 	}
 	return true
+}
+
+// atoms reports whether no column is grouped and the key columns are scalar.
+func (t Type) atoms() bool {
+	for _, c := range t.Cols {
+		if !c.atom() {
+			return false
+		}
+	}
+	return t.keysScalar()
 }
 
 func (t Type) allScalar() bool {
@@ -394,7 +448,8 @@ func ValidSource(s Source) bool {
 	default:
 		return false
 	}
-	return eqCols(s.Schema, cols(Int, Int)) || eqCols(s.Schema, cols(Str, Int)) || eqCols(s.Schema, cols(Int, Int, Int))
+	return eqCols(s.Schema, cols(Int, Int)) || eqCols(s.Schema, cols(Str, Int)) || eqCols(s.Schema, cols(Int, Int, Int)) ||
+		eqCols(s.Schema, cols(Int, PtCol))
 }
 
 // Apply returns the type of op applied to a slice of type t, and whether the
@@ -486,7 +541,7 @@ func Apply(t Type, o Op, src2 *Source) (Type, bool) {
 		}
 		return same, true
 	case OpCogroup:
-		if !t.PrefixKnown || !t.allScalar() || n < t.Prefix {
+		if !t.PrefixKnown || !t.atoms() || n < t.Prefix {
 			return t, false
 		}
 		nin := 1
@@ -507,11 +562,11 @@ func Apply(t Type, o Op, src2 *Source) (Type, bool) {
 		c := append([]Col(nil), t.Cols[:t.Prefix]...)
 		for i := 0; i < nin; i++ {
 			for _, x := range t.Cols[t.Prefix:] {
-				c = append(c, x+2) // Int->Ints, Str->Strs
+				c = append(c, x.grouped())
 			}
 		}
 		for _, x := range extra {
-			c = append(c, x+2)
+			c = append(c, x.grouped())
 		}
 		return Type{Cols: c, Prefix: t.Prefix, PrefixKnown: true}, true
 	case OpReshuffle, OpReshard:
@@ -539,6 +594,9 @@ func Apply(t Type, o Op, src2 *Source) (Type, bool) {
 
 // RootType is the type of the slice the chain operators are applied to.
 func (p Program) RootType() (Type, bool) {
+	if p.Shape == ShapeResult {
+		return p.resultRootType()
+	}
 	if !ValidSource(p.Src) {
 		return Type{}, false
 	}
